@@ -7,7 +7,7 @@ import json
 import re
 
 from ..astq import body_walk, dotted, src
-from ..hashmodel import full_model, find_terms, flat_emits, extract_update, class_bytes_constants
+from ..hashmodel import full_model
 from ..loader import Undecided
 from ..report import Check
 
@@ -31,10 +31,19 @@ def _model(chk):
     return m, br, f, chk.loc(f.module, f.node)
 
 
-def _first_tag(terms):
-    if terms and terms[0][0] == "emit" and terms[0][1][0] == "tag":
-        return terms[0][1][1]
-    return None
+def _noif(trace):
+    return [it for it in trace if it[0] != "if"]
+
+
+def _is_tag(it, name=None):
+    return it[0] == "emit" and it[1][0] == "tag" and (name is None or it[1][1] == name)
+
+
+def _single(br, kind):
+    ts = br.get(kind)
+    if ts is None:
+        raise Undecided(f"value kind `{kind}` not found in the dispatch chain")
+    return ts
 
 
 def r1_tags(chk: Check):
@@ -47,44 +56,52 @@ def r1_tags(chk: Check):
         if v in vals:
             chk.violation(f"core.objects:HashComputer.{k}", f"tags {k} and {vals[v]} share the byte {v}: values of two kinds can produce the same stream", loc)
         vals[v] = k
-    # each kind starts with its own tag
     expect = {"None": "NONE_ID", "float": "FLOAT_ID", "int": "INT_ID", "str": "STR_ID", "list": "LIST_ID", "Enum": "ENUM_ID",
               "dict": "DICT_ID", "Config": "OBJECT_ID"}
     seen = {}
     for kind, tag in expect.items():
-        if kind not in br:
-            raise Undecided(f"value kind `{kind}` not found in the dispatch chain")
-        ft = _first_tag(br[kind])
-        chk.require(ft == tag, chk.fkey(f, f"{kind} tag"), f"values of kind {kind} start with tag {ft}, expected {tag}", loc)
-        if ft in seen:
-            chk.violation(chk.fkey(f, f"{kind} tag"), f"kinds {kind} and {seen[ft]} start with the same tag {ft}", loc)
-        seen[ft] = kind
-    # NAME_ID is never a value tag
+        ts = _single(br, kind)
+        firsts = {(_noif(t)[0][1][1] if _noif(t) and _is_tag(_noif(t)[0]) else None) for t in ts}
+        chk.require(firsts == {tag}, chk.fkey(f, f"{kind} tag"), f"values of kind {kind} start with {sorted(map(str, firsts))}, expected the tag {tag} on every path", loc)
+        for ft in firsts:
+            if ft in seen and seen[ft] != kind:
+                chk.violation(chk.fkey(f, f"{kind} tag"), f"kinds {kind} and {seen[ft]} start with the same tag {ft}", loc)
+            seen[ft] = kind
     chk.require("NAME_ID" not in seen, chk.fkey(f, "NAME_ID"), "NAME_ID is used as a value tag", loc)
+    # an unknown kind raises
+    els = br.get("else", [])
+    chk.require(bool(els) and all(t and t[-1][0] == "end" and t[-1][1].startswith("raise") for t in els), chk.fkey(f, "unknown kinds raise"), "a value of an unknown kind must raise, not be hashed as nothing", loc)
 
 
 def r2_scalars(chk: Check):
     m, br, f, loc = _model(chk)
-    def second(kind):
-        t = br[kind]
+
+    def payload(kind):
+        ts = _single(br, kind)
+        if len(ts) != 1:
+            return None
+        t = _noif(ts[0])
         return t[1][1] if len(t) == 2 and t[1][0] == "emit" else None
-    s = second("int")
+
+    s = payload("int")
     chk.require(s is not None and s[0] == "pack" and s[1] in INT_FORMATS_OK and s[2] == "$1", chk.fkey(f, "int payload"),
                 f"int payload is {s}: must be a lossless 64-bit integer pack of the value (e.g. packing as a double makes 2**53 and 2**53+1 collide)", loc)
-    s = second("float")
+    s = payload("float")
     chk.require(s is not None and s[0] == "pack" and s[1] in FLOAT_FORMATS_OK and s[2] == "$1", chk.fkey(f, "float payload"),
                 f"float payload is {s}: must be the 8-byte double of the value", loc)
-    s = second("str")
+    s = payload("str")
     chk.require(s is not None and s[0] == "text" and s[1] == "utf-8" and s[2] == "$1", chk.fkey(f, "str payload"),
                 f"str payload is {s}: must be the utf-8 bytes of the whole text", loc)
-    t = br["None"]
-    chk.require(len(t) == 1, chk.fkey(f, "None payload"), "None must be the bare NONE tag", loc)
+    ts = _single(br, "None")
+    chk.require(len(ts) == 1 and len(_noif(ts[0])) == 1, chk.fkey(f, "None payload"), "None must be the bare NONE tag", loc)
 
 
 def r3_list(chk: Check):
     m, br, f, loc = _model(chk)
-    t = br["list"]
-    fors = [x for x in t if x[0] == "for"]
+    ts = _single(br, "list")
+    chk.require(len(ts) == 1, chk.fkey(f, "list framing"), f"a list is hashed along {len(ts)} different paths", loc)
+    t = _noif(ts[0])
+    fors = [x for x in t if x[0] == "loop"]
     packs = [x for x in t if x[0] == "emit" and x[1][0] == "pack"]
     sorts = [x for x in t if x[0] == "sort"]
     ok = len(fors) == 1 and len(packs) == 1 and t.index(packs[0]) < t.index(fors[0])
@@ -96,89 +113,122 @@ def r3_list(chk: Check):
         chk.require(not sorts and not it.startswith(("sorted(", "set(", "reversed(")), chk.fkey(f, "list order"),
                     "list elements must be hashed in the given order ([a,b] and [b,a] are different signatures)", loc)
         body = fors[0][2]
-        chk.require(len(body) == 1 and body[0][0] == "rec", chk.fkey(f, "list elements"), f"list elements are not each hashed recursively: {body}", loc)
+        chk.require(len(body) == 1 and len(body[0]) == 1 and body[0][0][0] == "rec", chk.fkey(f, "list elements"), f"list elements are not each hashed recursively: {body}", loc)
 
 
 def r4_enum(chk: Check):
     m, br, f, loc = _model(chk)
-    t = br["Enum"]
+    ts = _single(br, "Enum")
+    t = _noif(ts[0]) if len(ts) == 1 else []
     s = t[1][1] if len(t) == 2 and t[1][0] == "emit" else None
     ok = s is not None and s[0] == "text" and all(k in s[2] for k in ("__module__", "__qualname__", ".name"))
     chk.require(ok, chk.fkey(f, "enum payload"), f"enum payload is {s}: must contain the class module, qualified name and member name "
                 "(two enums with a common member name would collide)", loc)
 
 
+def _root_and_nested(br):
+    ts = _single(br, "Config")
+    root = [t for t in ts if any(x[0] == "emit" and x[1][0] == "text" and x[1][2].endswith(".identifier.name") for x in t)]
+    nested = [t for t in ts if t not in root]
+    return root, nested
+
+
 def r5_nested(chk: Check):
     m, br, f, loc = _model(chk)
-    t = br["Config"]
-    ok = len(t) >= 2 and t[1][0] == "if" and t[1][1].startswith("not ")
-    nested = t[1][2] if ok else []
-    cyc = [x for _, x in find_terms(nested, lambda x: x[0] == "emit" and x[1][0] == "tag" and x[1][1] == "CYCLE_REFERENCE")]
-    dig = [x for _, x in find_terms(nested, lambda x: x[0] == "emit" and x[1][0] == "bytes" and "compute(" in x[1][1] and x[1][1].endswith(".all"))]
-    pk = [x for _, x in find_terms(nested, lambda x: x[0] == "emit" and x[1][0] == "pack")]
-    ends_return = bool(nested) and nested[-1][0] == "return"
-    chk.require(ok and len(cyc) == 1 and len(dig) == 1 and len(pk) == 1 and pk[0][1][1] in INT_FORMATS_OK and ends_return,
-                chk.fkey(f, "nested configuration"),
-                "a nested configuration must be hashed as OBJECT tag then either CYCLE tag + packed index or the child's digest, and nothing else", loc)
+    root, nested = _root_and_nested(br)
+    ok = len(nested) == 2
+    cyc = [t for t in nested if any(_is_tag(x, "CYCLE_REFERENCE") for x in t)]
+    dig = [t for t in nested if t not in cyc]
+    if ok and len(cyc) == 1 and len(dig) == 1:
+        c = _noif(cyc[0])
+        d = _noif(dig[0])
+        ok = (len(c) == 3 and _is_tag(c[0], "OBJECT_ID") and _is_tag(c[1], "CYCLE_REFERENCE") and c[2][0] == "emit" and c[2][1][0] == "pack" and c[2][1][1] in INT_FORMATS_OK
+              and len(d) == 2 and _is_tag(d[0], "OBJECT_ID") and d[1][0] == "emit" and d[1][1][0] == "bytes" and "compute(" in d[1][1][1] and d[1][1][1].endswith(".all"))
+        # the two are selected by the loop detection
+        ok = ok and any(x[0] == "if" and "detect_loop" in x[1] and x[2] is True for x in cyc[0]) and any(x[0] == "if" and "detect_loop" in x[1] and x[2] is False for x in dig[0])
+    else:
+        ok = False
+    chk.require(ok, chk.fkey(f, "nested configuration"),
+                f"a nested configuration must be hashed as OBJECT tag then either CYCLE tag + packed index (when a loop is detected) or the child's digest, and nothing else ({len(nested)} paths found)", loc)
 
 
 def r6_root(chk: Check):
     m, br, f, loc = _model(chk)
-    t = br["Config"]
-    # positions
-    idx_task = idx_type = idx_args = None
-    for i, x in enumerate(t):
-        if x[0] == "if" and any(e[0] == "emit" and e[1][0] == "tag" and e[1][1] == "TASK_ID" for e in x[2]):
-            idx_task = i
-            then = x[2]
-            okt = len(then) == 2 and then[1][0] == "rec" and then[1][1].endswith(".__xpm__.task") and "task is not None" in x[1]
-            chk.require(okt, chk.fkey(f, "task output"), f"task outputs must be hashed as TASK tag + the producing task (guard `{x[1]}`, then {then})", loc)
-        if x[0] == "emit" and x[1][0] == "text" and x[1][2].endswith(".identifier.name"):
-            idx_type = i
-        if x[0] == "for" and ".arguments" in x[1]:
-            idx_args = i
-            body = x[2]
-            okb = (len(body) == 3 and body[0][0] == "rec" and body[0][1].endswith(".name") and body[1] == ["emit", ["tag", "NAME_ID", m["update"]["tags"]["NAME_ID"]]]
-                   and body[2][0] == "rec" and ("getattr(" in body[2][1] or "values" in body[2][1]))
+    root, nested = _root_and_nested(br)
+    chk.require(len(root) >= 2, chk.fkey(f, "root paths"), f"{len(root)} paths hash a configuration itself (expected: with and without a producing task)", loc)
+    name_tag = ["emit", ["tag", "NAME_ID", m["update"]["tags"]["NAME_ID"]]]
+    with_task = 0
+    for t in root:
+        items = _noif(t)
+        conds = {(x[1], x[2]) for x in t if x[0] == "if"}
+        has_task = any(_is_tag(x, "TASK_ID") for x in items)
+        idx_type = next(i for i, x in enumerate(items) if x[0] == "emit" and x[1][0] == "text" and x[1][2].endswith(".identifier.name"))
+        chk.require(_is_tag(items[0], "OBJECT_ID"), chk.fkey(f, "root starts with OBJECT"), "the root must start with the OBJECT tag", loc)
+        # the producing task is hashed exactly when it is set and is not the configuration itself
+        task_set = any(c.endswith(".__xpm__.task is None") and pol is False for c, pol in conds)
+        not_self = any(".__xpm__.task is " in c and not c.endswith("is None") and pol is False for c, pol in conds)
+        expect_task = task_set and not_self
+        chk.require(has_task == expect_task, chk.fkey(f, "task output"),
+                    f"under {sorted(conds)} the producing task is {'hashed' if has_task else 'not hashed'}: it must be hashed (TASK tag + task) exactly when the configuration is the output of another task "
+                    "(else the same output configuration produced by two different tasks collides)", loc)
+        if has_task:
+            with_task += 1
+            i = next(i for i, x in enumerate(items) if _is_tag(x, "TASK_ID"))
+            ok = items[i + 1][0] == "rec" and items[i + 1][1].endswith(".__xpm__.task") and i + 1 < idx_type
+            chk.require(ok, chk.fkey(f, "task before type name"), "TASK tag must be followed by the producing task, before the type name", loc)
+        lps = [x for x in items if x[0] == "loop"]
+        ok = len(lps) == 1 and ".arguments" in lps[0][1] and items.index(lps[0]) > idx_type
+        chk.require(ok, chk.fkey(f, "arguments after type name"), "the root must hash the type name and then the arguments", loc)
+        if ok:
+            chk.require(lps[0][1].startswith("sorted("), chk.fkey(f, "argument order"), "arguments must be hashed in sorted order", loc)
+            bodies = lps[0][2]
+            okb = len(bodies) == 1 and len(bodies[0]) == 3 and bodies[0][0][0] == "rec" and bodies[0][0][1].endswith(".name") and bodies[0][1] == name_tag \
+                and bodies[0][2][0] == "rec" and ("getattr(" in bodies[0][2][1] or "values" in bodies[0][2][1])
             chk.require(okb, chk.fkey(f, "argument triple"),
-                        f"each hashed argument must be name, NAME tag, value -- found {body} (without the name S(a=1) and S(b=1) collide; without the separator name/value boundaries blur)", loc)
-            chk.require(x[1].startswith("sorted("), chk.fkey(f, "argument order"), "arguments must be hashed in sorted order", loc)
-    chk.require(idx_task is not None, chk.fkey(f, "TASK_ID"), "the producing task of a task output is not hashed: the same output configuration produced by two different tasks would collide", loc)
-    chk.require(idx_type is not None, chk.fkey(f, "type name"), "the type identifier is not hashed", loc)
-    chk.require(idx_args is not None, chk.fkey(f, "argument loop"), "no argument loop", loc)
-    if None not in (idx_task, idx_type, idx_args):
-        chk.require(idx_task < idx_type < idx_args, chk.fkey(f, "root order"), "root must be: [TASK + task] type name, then arguments", loc)
+                        f"each hashed argument must be name, NAME tag, value -- found {bodies} (without the name S(a=1) and S(b=1) collide; without the separator name/value boundaries blur)", loc)
+    chk.require(with_task >= 1, chk.fkey(f, "TASK_ID"), "the producing task of a task output is never hashed", loc)
 
 
 def r7_dict(chk: Check):
     m, br, f, loc = _model(chk)
-    t = br["dict"]
-    fors = [x for x in t if x[0] == "for"]
-    ok = len(fors) == 1 and len(fors[0][2]) == 2 and all(b[0] == "rec" for b in fors[0][2]) and fors[0][2][0][1] != fors[0][2][1][1]
+    ts = _single(br, "dict")
+    chk.require(len(ts) == 1, chk.fkey(f, "dict framing"), f"a dict is hashed along {len(ts)} different paths", loc)
+    t = _noif(ts[0])
+    fors = [x for x in t if x[0] == "loop"]
+    ok = len(fors) == 1 and len(fors[0][2]) == 1 and len(fors[0][2][0]) == 2 and all(b[0] == "rec" for b in fors[0][2][0]) and fors[0][2][0][0][1] != fors[0][2][0][1][1]
     chk.require(ok, chk.fkey(f, "dict items"), f"dict items must be hashed as key then value for every kept item: {fors}", loc)
     sorts = [x for x in t if x[0] == "sort"]
-    srt = bool(sorts) or (fors and fors[0][1].startswith("sorted("))
-    chk.require(srt, chk.fkey(f, "dict order"), "dict items must be hashed in sorted key order", loc)
+    srt = (bool(sorts) and fors and sorts[0][1] == fors[0][1] and t.index(sorts[0]) < t.index(fors[0])) or (fors and fors[0][1].startswith("sorted("))
+    chk.require(bool(srt), chk.fkey(f, "dict order"), "dict items must be hashed in sorted key order (the sorted sequence must be the iterated one)", loc)
 
 
 def r8_full(chk: Check):
     m, br, f, loc = _model(chk)
     fi = chk.tree.func("core.objects", "ConfigInformation.identifiers")
     loc = chk.loc(fi.module, fi.node)
-    t = m["identifiers"]
-    guard = [x for x in t if x[0] == "if" and x[1] == "<cache-guard>"]
-    body = guard[0][2] if guard else t
-    ok = len(body) >= 3 and body[0][0] == "emit" and body[0][1][0] == "bytes" and body[0][1][1].endswith(".all")
-    chk.require(ok, chk.fkey(fi, "raw first"), "the full identifier must start with the raw digest", loc)
-    pre = [x for x in body if x[0] == "for" and "collect_pre_tasks" in x[1]]
-    chk.require(len(pre) == 1 and pre[0][1].startswith("sorted("), chk.fkey(fi, "pre-tasks sorted"), "pre-task digests must be hashed in sorted order (they form a set)", loc)
-    ini = [x for x in body if x[0] == "if" and "init_tasks" in x[1]]
-    ok = len(ini) == 1 and len(ini[0][2]) == 2 and ini[0][2][0] == ["emit", ["tag", "INIT_TASKS", m["update"]["tags"]["INIT_TASKS"]]] and ini[0][2][1][0] == "for"
-    chk.require(ok, chk.fkey(fi, "INIT_TASKS marker"), "init-task digests must follow an INIT_TASKS marker (else one pre-task and one init task collide)", loc)
-    if ok:
-        it = ini[0][2][1][1]
-        chk.require(not it.startswith("sorted(") and it.endswith("init_tasks"), chk.fkey(fi, "init tasks order"), "init tasks must be hashed in the given order (they form a sequence)", loc)
-        chk.require(body.index(pre[0]) < body.index(ini[0]) if pre else False, chk.fkey(fi, "pre before init"), "pre-task digests must precede the init-task block", loc)
+    ts = m["identifiers"]
+    chk.require(len(ts) == 2, chk.fkey(fi, "paths"), f"the full identifier is built along {len(ts)} distinct paths (expected: with and without init tasks)", loc)
+    init_tag = ["emit", ["tag", "INIT_TASKS", m["update"]["tags"]["INIT_TASKS"]]]
+    n_init = 0
+    for t in ts:
+        items = _noif(t)
+        conds = {(x[1], x[2]) for x in t if x[0] == "if"}
+        ok = bool(items) and items[0][0] == "emit" and items[0][1][0] == "bytes" and items[0][1][1].endswith(".all")
+        chk.require(ok, chk.fkey(fi, "raw first"), "the full identifier must start with the raw digest", loc)
+        pre = [x for x in items if x[0] == "loop" and "collect_pre_tasks" in x[1]]
+        chk.require(len(pre) == 1 and pre[0][1].startswith("sorted(") and items.index(pre[0]) == 1, chk.fkey(fi, "pre-tasks sorted"), "pre-task digests must be hashed right after the raw digest, in sorted order (they form a set)", loc)
+        has_init = init_tag in items
+        want_init = ("self.init_tasks", True) in conds
+        chk.require(has_init == want_init, chk.fkey(fi, "INIT_TASKS marker"), f"under {sorted(conds)} the INIT_TASKS marker is {'present' if has_init else 'absent'}: it must be hashed exactly when there are init tasks", loc)
+        if has_init:
+            n_init += 1
+            i = items.index(init_tag)
+            lp = items[i + 1] if i + 1 < len(items) else None
+            ok = lp is not None and lp[0] == "loop" and lp[1].endswith("init_tasks") and not lp[1].startswith("sorted(") and len(items) == i + 2 and pre and i > items.index(pre[0])
+            chk.require(ok, chk.fkey(fi, "init tasks after the marker, in order"),
+                        "the INIT_TASKS marker must come after the pre-task digests and be followed by the init-task digests in the given order, and nothing else "
+                        "(a marker placed before the pre-task digests makes one pre-task and one init task indistinguishable)", loc)
+    chk.require(n_init == 1, chk.fkey(fi, "init tasks hashed"), "init tasks are never hashed", loc)
 
 
 def r9_framing(chk: Check):
@@ -186,37 +236,51 @@ def r9_framing(chk: Check):
     m, br, f, loc = _model(chk)
     tags = m["update"]["tags"]
     value_first = {tags[k] for k in ("NONE_ID", "FLOAT_ID", "INT_ID", "STR_ID", "LIST_ID", "ENUM_ID", "DICT_ID", "OBJECT_ID")}
-    text_alphabet_low = 0x20  # text without control characters: all bytes >= 0x20
-    # what can follow a value: another value (list element, dict key/value), NAME tag (after the name),
-    # a name text (next argument: STR tag first), end of stream
-    follow_value = set(value_first) | {tags["NAME_ID"]}
     conflicts = []
-    # variable-length constructs: text (str, enum, type name), list (length-prefixed), dict (unterminated), argument sequence
-    for kind in ("str", "Enum"):
-        # continuation alphabet of text = bytes >= 0x20; FOLLOW = tags (< 0x20) -> disjoint iff every tag < 0x20 (R1)
-        if any(int(v, 16) >= text_alphabet_low for v in follow_value):
-            conflicts.append((kind, "text continuation alphabet meets FOLLOW"))
-    allow = []
-    allow.append("text is unterminated: delimited only by the following tag; text containing bytes < 0x20 is outside the property's domain")
-    # list: must be length-prefixed (R3) -> no conflict.  dict: unterminated, continuation alphabet = FIRST(value) which meets FOLLOW(value)
-    t = br["dict"]
-    has_len = any(x[0] == "emit" and x[1][0] == "pack" for x in t)
-    if not has_len:
-        allow.append("dict is unterminated (no length, no end marker): a dict followed by sibling values is delimited only by typing; "
-                     "nesting deeper than two levels is outside the property's domain")
-    lt = br["list"]
-    if not any(x[0] == "emit" and x[1][0] == "pack" for x in lt):
-        conflicts.append(("list", "no length prefix: list continuation (FIRST(value)) meets FOLLOW(list)"))
-    # argument sequence: each item starts with STR tag (name), ends before next STR tag or end; value may itself be str ->
-    # separated by NAME tag between name and value: name is text (>=0x20) then NAME tag (<0x20): fine if NAME not a value tag (R1)
+    allow = ["text is unterminated: delimited only by the following tag; text containing bytes < 0x20 is outside the property's domain"]
+    # every variable-length construct of every path: text (ends at the next tag), loop (counted or not)
+    def check_trace(kind, t):
+        items = _noif(t)
+        for i, it in enumerate(items):
+            nxt = items[i + 1] if i + 1 < len(items) else None
+            if it[0] == "emit" and it[1][0] == "text":
+                # what follows a text inside the same value must start with a tag (< 0x20): not another text / raw bytes / pack
+                if nxt is not None and nxt[0] == "emit" and nxt[1][0] in ("text", "bytes", "pack"):
+                    conflicts.append((kind, f"text `{it[1][2]}` is directly followed by {nxt[1][0]} data: no tag delimits it"))
+                if nxt is not None and nxt[0] == "loop":
+                    for b in nxt[2]:
+                        fb = _noif(b)
+                        if fb and fb[0][0] == "emit" and fb[0][1][0] in ("text", "bytes", "pack"):
+                            conflicts.append((kind, f"text `{it[1][2]}` is directly followed by untagged data"))
+            if it[0] == "loop":
+                counted = i > 0 and items[i - 1][0] == "emit" and items[i - 1][1][0] == "pack" and items[i - 1][1][2] == f"len({it[1]})"
+                last = i == len(items) - 1
+                starts = set()
+                for b in it[2]:
+                    fb = _noif(b)
+                    if fb:
+                        starts.add(fb[0][0] if fb[0][0] != "emit" else fb[0][1][0])
+                if kind == "dict" and not counted:
+                    allow.append("dict is unterminated (no length, no end marker): a dict followed by sibling values is delimited only by typing; nesting deeper than two levels is outside the property's domain")
+                elif kind == "list" and not counted:
+                    conflicts.append((kind, "list elements are not preceded by their count: list continuation meets FOLLOW(list)"))
+                elif not counted and not last and "bytes" in starts:
+                    # a run of fixed-size digests followed by something else: what follows must start with a tag
+                    if nxt is not None and not (nxt[0] == "emit" and nxt[1][0] == "tag"):
+                        conflicts.append((kind, f"an uncounted run of digests is followed by {nxt[0]} without a tag"))
+    for kind, ts in m["update"]["branches"]:
+        for t in ts:
+            check_trace(kind, t)
+    for t in m["identifiers"]:
+        check_trace("full identifier", t)
     if tags["NAME_ID"] in value_first:
         conflicts.append(("argument", "NAME tag is also a value tag"))
-    for c in conflicts:
-        chk.violation(chk.fkey(f, f"framing conflict {c[0]}"), f"framing conflict: {c[1]}", loc)
-    for a in allow:
+    for c in sorted(set(conflicts)):
+        chk.violation(chk.fkey(f, f"framing conflict {c[0]}: {c[1][:60]}"), f"framing conflict in the hashing of {c[0]}: {c[1]}", loc)
+    for a in sorted(set(allow)):
         chk.note("DOMAIN-EXCLUSION " + a, loc)
     if not conflicts:
-        chk.ok(chk.fkey(f, "framing"), loc, f"no framing conflict other than the {len(allow)} domain exclusions")
+        chk.ok(chk.fkey(f, "framing"), loc, f"no framing conflict other than the {len(set(allow))} domain exclusions")
 
 
 def r10_relevant_arguments_hashed(chk: Check):
